@@ -148,23 +148,24 @@ theorem rejects (s : List Char) : ∀ (T : List Tok) (f : Fin), afterWord T f = 
     have hstep : stepChar s (inRanges WS) ⟨p, c⟩ = [] := by unfold stepChar; simp [hch, hws]
     simp [compile, ms, hstep]
 
-/-- `(\S+)` over a maximal word, followed by something that needs a blank or the end -/
-theorem ms_word (s : List Char) (T : List Tok) (f : Fin) (i : Nat) (nm : Option String) (c : Caps) (p : Nat)
+/-- `([class]+)` over a maximal run of class characters (a class inside `\S`), followed by something that needs a
+blank or the end -/
+theorem ms_clsword (s : List Char) (rs : List (Nat × Nat)) (hsub : ∀ n, inRanges rs n = true → inRanges NS n = true)
+    (T : List Tok) (f : Fin) (i : Nat) (nm : Option String) (c : Caps) (p : Nat)
     (w tail : List Char) (hd : s.drop p = w ++ tail) (hp : p ≤ s.length) (hne : w ≠ [])
-    (hall : w.all isNS = true) (htail : ∀ ch t', tail = ch :: t' → isNS ch = false)
+    (hall : ∀ y ∈ w, inRanges rs y.toNat = true) (htail : ∀ ch t', tail = ch :: t' → inRanges rs ch.toNat = false)
     (haw : afterWord T f = true) :
-    ms s (.cat (.group i nm (.plus true (.cls NS))) (compile T f)) ⟨p, c⟩
+    ms s (.cat (.group i nm (.plus true (.cls rs))) (compile T f)) ⟨p, c⟩
       = ms s (compile T f) ⟨p + w.length, (i, (p, p + w.length)) :: c⟩ := by
   cases w with
   | nil => exact absurd rfl hne
   | cons x w =>
-    have hx : isNS x = true := by simp at hall; exact hall.1
-    have hw : ∀ y ∈ w, inRanges NS y.toNat = true := by
-      intro y hy; simp at hall; exact hall.2 y hy
+    have hx : inRanges rs x.toNat = true := hall x (by simp)
+    have hw : ∀ y ∈ w, inRanges rs y.toNat = true := fun y hy => hall y (by simp [hy])
     have h1 : s[p]? = some x := getElem?_of_drop (by simpa using hd)
     have hd' : s.drop (p + 1) = w ++ tail := drop_succ_of_drop (by simpa using hd)
-    have hstep : stepChar s (inRanges NS) ⟨p, c⟩ = [⟨p + 1, c⟩] := by
-      unfold stepChar; simp [h1]; exact hx
+    have hstep : stepChar s (inRanges rs) ⟨p, c⟩ = [⟨p + 1, c⟩] := by
+      unfold stepChar; simp [h1, hx]
     have hlen := length_of_drop hd hp
     let G : St → List St := fun t => ms s (compile T f) { t with caps := (i, (p, t.pos)) :: t.caps }
     have hG : ∀ k, k < w.length → G ⟨p + 1 + k, c⟩ = [] := by
@@ -174,14 +175,41 @@ theorem ms_word (s : List Char) (T : List Tok) (f : Fin) (i : Nat) (nm : Option 
         rw [hd'] at this
         rw [← this, List.getElem?_append_left hk]
       have hwk : w[k]? = some w[k] := List.getElem?_eq_getElem hk
-      exact rejects s T f haw (p + 1 + k) _ w[k] (by rw [hget, hwk]) (hw _ (List.getElem_mem hk))
-    have := starN_run s (inRanges NS) G c w tail (p + 1) (s.length - (p + 1)) hd' hw
+      exact rejects s T f haw (p + 1 + k) _ w[k] (by rw [hget, hwk]) (hsub _ (hw _ (List.getElem_mem hk)))
+    have := starN_run s (inRanges rs) G c w tail (p + 1) (s.length - (p + 1)) hd' hw
       (by intro ch t' he; exact htail ch t' he) (by simp at hlen; omega) hG
     simp only [ms, hstep, List.flatMap_cons, List.flatMap_nil, List.append_nil, List.flatMap_map]
-    have h2 : (fun st => stepChar s (inRanges NS) st) = stepChar s (inRanges NS) := rfl
     simp only [G] at this
     rw [show (p + (x :: w).length) = p + 1 + w.length by simp; omega]
     simpa using this
+
+theorem dg_sub_ns (n : Nat) (h : inRanges DG n = true) : inRanges NS n = true := by
+  unfold inRanges DG NS at *
+  simp only [List.any_cons, List.any_nil, Bool.or_false, Bool.or_eq_true, Bool.and_eq_true, decide_eq_true_eq] at h ⊢
+  omega
+
+theorem ms_word (s : List Char) (T : List Tok) (f : Fin) (i : Nat) (nm : Option String) (c : Caps) (p : Nat)
+    (w tail : List Char) (hd : s.drop p = w ++ tail) (hp : p ≤ s.length) (hne : w ≠ [])
+    (hall : w.all isNS = true) (htail : ∀ ch t', tail = ch :: t' → isNS ch = false)
+    (haw : afterWord T f = true) :
+    ms s (.cat (.group i nm (.plus true (.cls NS))) (compile T f)) ⟨p, c⟩
+      = ms s (compile T f) ⟨p + w.length, (i, (p, p + w.length)) :: c⟩ :=
+  ms_clsword s NS (fun _ h => h) T f i nm c p w tail hd hp hne
+    (fun y hy => by simpa [isNS] using (List.all_eq_true.mp hall) y hy) htail haw
+
+theorem ms_num (s : List Char) (T : List Tok) (f : Fin) (i : Nat) (nm : Option String) (c : Caps) (p : Nat)
+    (w tail : List Char) (hd : s.drop p = w ++ tail) (hp : p ≤ s.length) (hne : w ≠ [])
+    (hall : w.all isDG = true) (htail : ∀ ch t', tail = ch :: t' → isNS ch = false)
+    (haw : afterWord T f = true) :
+    ms s (.cat (.group i nm (.plus true (.cls DG))) (compile T f)) ⟨p, c⟩
+      = ms s (compile T f) ⟨p + w.length, (i, (p, p + w.length)) :: c⟩ :=
+  ms_clsword s DG dg_sub_ns T f i nm c p w tail hd hp hne
+    (fun y hy => by simpa [isDG] using (List.all_eq_true.mp hall) y hy)
+    (fun ch t' he => by
+      have h := htail ch t' he
+      cases hd : inRanges DG ch.toNat with
+      | false => rfl
+      | true => have := dg_sub_ns _ hd; simp [isNS, this] at h) haw
 
 /-- `(.*)$` takes everything that is left -/
 theorem ms_rest (s : List Char) (i : Nat) (nm : Option String) (c : Caps) (p : Nat) (r : List Char)
@@ -273,6 +301,19 @@ theorem ms_compile (s : List Char) : ∀ (T : List Tok) (f : Fin) (words : List 
         rw [ms_word s T f i nm c p w _ hd hp hne hall (tail_after_word T f ws r haw) haw]
         rw [ih f ws r (p + w.length) _ hok' (drop_add_of_drop hd) (by omega)]
         simp [List.append_assoc]
+    | num i nm =>
+      cases words with
+      | nil => simp [Ok] at hok
+      | cons w ws =>
+        simp only [render] at hd
+        simp only [Ok, Bool.and_eq_true, Bool.not_eq_true', List.isEmpty_eq_false_iff] at hok
+        obtain ⟨⟨⟨hne, hall⟩, haw⟩, hok'⟩ := hok
+        have hlen := length_of_drop hd hp
+        simp at hlen
+        simp only [compile, capsOf]
+        rw [ms_num s T f i nm c p w _ hd hp hne hall (tail_after_word T f ws r haw) haw]
+        rw [ih f ws r (p + w.length) _ hok' (drop_add_of_drop hd) (by omega)]
+        simp [List.append_assoc]
 
 end Shk.Tpl
 
@@ -295,6 +336,12 @@ theorem capsOf_keys : ∀ (T : List Tok) (f : Fin) (words : List (List Char)) (r
       | cons w ws =>
         simp only [Ok, Bool.and_eq_true] at hok
         simp [capsOf, groupsOf, ih f ws r _ hok.2]
+    | num i nm =>
+      cases words with
+      | nil => simp [Ok] at hok
+      | cons w ws =>
+        simp only [Ok, Bool.and_eq_true] at hok
+        simp [capsOf, groupsOf, ih f ws r _ hok.2]
 
 theorem fieldsOf_keys : ∀ (T : List Tok) (f : Fin) (words : List (List Char)) (r : List Char),
     Ok T f words r = true → (fieldsOf T f words r).map (·.1) = groupsOf T f := by
@@ -307,6 +354,12 @@ theorem fieldsOf_keys : ∀ (T : List Tok) (f : Fin) (words : List (List Char)) 
     | lit w => simp only [Ok] at hok; simpa [fieldsOf, groupsOf] using ih f words r hok
     | ws => simp only [Ok, Bool.and_eq_true] at hok; simpa [fieldsOf, groupsOf] using ih f words r hok.2
     | word i nm =>
+      cases words with
+      | nil => simp [Ok] at hok
+      | cons w ws =>
+        simp only [Ok, Bool.and_eq_true] at hok
+        simp [fieldsOf, groupsOf, ih f ws r hok.2]
+    | num i nm =>
       cases words with
       | nil => simp [Ok] at hok
       | cons w ws =>
@@ -342,6 +395,13 @@ theorem caps_are_fields (s : List Char) : ∀ (T : List Tok) (f : Fin) (words : 
       simp only [render] at hd; simp only [Ok, Bool.and_eq_true] at hok
       simpa [capsOf, fieldsOf] using ih f words r _ hok.2 (drop_succ_of_drop hd)
     | word i nm =>
+      cases words with
+      | nil => simp [Ok] at hok
+      | cons w ws =>
+        simp only [render] at hd; simp only [Ok, Bool.and_eq_true] at hok
+        have := ih f ws r _ hok.2 (drop_add_of_drop hd)
+        simp [capsOf, fieldsOf, this, slice_prefix hd]
+    | num i nm =>
       cases words with
       | nil => simp [Ok] at hok
       | cons w ws =>
@@ -390,6 +450,12 @@ theorem group_le_ngroups : ∀ (T : List Tok) (f : Fin) (i : Nat), i ∈ groupsO
     | lit w => simp only [groupsOf] at h; simpa [compile, ngroups_strThen] using ih f i h
     | ws => simp only [groupsOf] at h; have := ih f i h; simp [compile, ngroups]; omega
     | word j nm =>
+      simp only [groupsOf, List.mem_append, List.mem_singleton] at h
+      simp only [compile, ngroups]
+      rcases h with h | h
+      · have := ih f i h; omega
+      · omega
+    | num j nm =>
       simp only [groupsOf, List.mem_append, List.mem_singleton] at h
       simp only [compile, ngroups]
       rcases h with h | h
@@ -486,8 +552,16 @@ theorem decompile_sound : ∀ (r : Re) (T : List Tok) (f : Fin), decompile r = s
     simp only [Prod.mk.injEq] at heq
     obtain ⟨rfl, rfl⟩ := heq
     rw [ih T' f' hp]; rfl
-  | case8 i nm ns K hns => intro T f h; simp [decompile, hns] at h
-  | case9 c K hc ih =>
+  | case8 i nm K hne ih =>
+    intro T f h
+    simp only [decompile, hne, if_false, if_true, Option.map_eq_some_iff] at h
+    obtain ⟨p, hp, heq⟩ := h
+    obtain ⟨T', f'⟩ := p
+    simp only [Prod.mk.injEq] at heq
+    obtain ⟨rfl, rfl⟩ := heq
+    rw [ih T' f' hp]; rfl
+  | case9 i nm ns K hns hdg => intro T f h; simp [decompile, hns, hdg] at h
+  | case10 c K hc ih =>
     intro T f h
     simp only [decompile, hc, if_true, Option.map_eq_some_iff] at h
     obtain ⟨p, hp, heq⟩ := h
@@ -495,8 +569,8 @@ theorem decompile_sound : ∀ (r : Re) (T : List Tok) (f : Fin), decompile r = s
     rw [heq] at this
     simp only at this
     rw [this, hc, ← ih p.1 p.2 (by simpa using hp)]
-  | case10 c K hc => intro T f h; simp [decompile, hc] at h
-  | case11 t h1 h2 h3 h4 h5 h6 =>
+  | case11 c K hc => intro T f h; simp [decompile, hc] at h
+  | case12 t h1 h2 h3 h4 h5 h6 =>
     intro T f h
     unfold decompile at h
     split at h <;> first | (exfalso; first | exact h1 rfl | exact h2 _ _ rfl | exact h3 _ rfl | exact h4 _ _ rfl | exact h5 _ _ _ _ rfl | exact h6 _ _ rfl) | simp_all
